@@ -143,7 +143,8 @@ fn run_case(cs: &Value, vals: &[f32], m: &TMap) -> Result<(Got, Got), String> {
         "Difference" => twice!(DifferenceStream::new(ins[0].getter.clone(), ins[1].getter.clone()), Got::Num),
         "Quotient" => twice!(QuotientStream::new(ins[0].getter.clone(), ins[1].getter.clone()), Got::Num),
         "Exponent" => twice!(ExponentStream::new(ins[0].getter.clone(), ins[1].getter.clone()), Got::Num),
-        "Expirer" => twice!(Expirer::new(ins[0].getter.clone(), clock.getter.clone(), Time(i(cs, "limit") * m.step)), Got::Num),
+        "Expirer" => twice!(Expirer::new(ins[0].getter.clone(), clock.getter.clone(),
+                                        if EXPIRER_NEVER.load(std::sync::atomic::Ordering::Relaxed) { Time(i64::MAX) } else { Time(i(cs, "limit") * m.step) }), Got::Num),
         "If" => twice!(IfStream::new(cond.getter.clone(), ins[0].getter.clone()), Got::Num),
         "IfElse" => twice!(IfElseStream::new(cond.getter.clone(), ins[0].getter.clone(), ins[1].getter.clone()), Got::Num),
         "NoneToError" => twice!(NoneToError::new(ins[0].getter.clone()), Got::Num),
@@ -163,6 +164,8 @@ fn run_case(cs: &Value, vals: &[f32], m: &TMap) -> Result<(Got, Got), String> {
     }
 }
 
+/// replay the expirer with the largest possible limit ("never expire"): whatever is not expired under the case's limit is not expired then
+static EXPIRER_NEVER: std::sync::atomic::AtomicBool = std::sync::atomic::AtomicBool::new(false);
 static TIMES_ONLY: std::sync::atomic::AtomicBool = std::sync::atomic::AtomicBool::new(false);
 /// the case under replay SELECTS one of its inputs (newest-of): there C03 also demands that the result IS one of the candidates
 static SELECTING: std::sync::atomic::AtomicBool = std::sync::atomic::AtomicBool::new(false);
@@ -257,12 +260,17 @@ fn main() {
             all.extend_from_slice(&extreme);
         }
         for m in &all {
-            for round in 0..2 {
+            let comb = s(cs, "comb");
+            // round 2 (exponent stream): whole-number operands, negative bases included ((-3)^2 = 9 in every configuration);
+            // round 2 (expirer, datum not expired): the same case with the limit i64::MAX
+            let rounds = if comb == "Exponent" || (comb == "Expirer" && exp["c"] == "some") { 3 } else { 2 };
+            for round in 0..rounds {
                 // index 0 unused; 1..8 inputs; 9 default / constant value
                 let mut vals = [0f32; 10];
                 for v in vals.iter_mut() {
-                    *v = if round == 0 { rng.float(-6, 10) } else { rng.float(-30, 30) };
+                    *v = if round == 0 { rng.float(-6, 10) } else if round == 1 || comb != "Exponent" { rng.float(-30, 30) } else { rng.range(-4, 4) as f32 };
                 }
+                EXPIRER_NEVER.store(round == 2 && comb == "Expirer", std::sync::atomic::Ordering::Relaxed);
                 rep.count("replays", 1);
                 let r = run_case(cs, &vals, m);
                 let what = match &r {
